@@ -1,5 +1,6 @@
 import Hls.Playlist.Multi
 import Hls.Playlist.PrimLemmas
+import Hls.Playlist.Grammar
 /-
   Specification-level vocabulary for the multivariant playlist theorems (C14 / C15):
     * the attribute list each `marshal` emits (`startAttrs`, `variantAttrs`, `renditionAttrs`),
@@ -225,6 +226,13 @@ def FloatOK (p : Multivariant) : Prop :=
   OptAll p.start (fun t => DurFloatOK t.timeOffset) ∧ ∀ v ∈ p.variants, OptAll v.frameRate FrFloatOK
 
 instance (p : Multivariant) : Decidable (FloatOK p) := by unfold FloatOK; exact inferInstance
+
+/-- attribute values the library passes through verbatim have the RFC's lexical class
+    (RESOLUTION is a decimal-resolution) -/
+def LexicalOK (p : Multivariant) : Prop :=
+  ∀ v ∈ p.variants, v.resolution ≠ [] → Grammar.isResolution v.resolution = true
+
+instance (p : Multivariant) : Decidable (LexicalOK p) := by unfold LexicalOK; exact inferInstance
 
 /-! ## Quantisation of the round trip -/
 
